@@ -255,9 +255,14 @@ Proof.
     destruct (IH q H2) as [c [rest E]]. exists c, rest. rewrite E. reflexivity.
 Qed.
 
-(* the file is one of the configured ones (or one the harness declared as its own) *)
+(* the file is one of the configured ones, the ".tmp" sibling of the user dictionary (a ".tmp" sibling of a file
+   dictionary is itself a file directly inside the file-dictionary directory), or one the harness declared as its own *)
 Definition PathAllowed (c : mcfg) (p : bytes) : Prop :=
-  p = m_user c \/ p = m_stats c \/ dir_of p = m_filedir c \/ In p (m_own c).
+  p = m_user c \/ p = m_user c ++ tmp_suffix \/ p = m_stats c \/ dir_of p = m_filedir c \/ In p (m_own c).
+
+(* the destination is a dictionary file and the source is exactly its ".tmp" sibling *)
+Definition RenameAllowed (c : mcfg) (src dst : bytes) : Prop :=
+  (dst = m_user c \/ dir_of dst = m_filedir c) /\ src = dst ++ tmp_suffix.
 
 (* the directory leads to a configured file, or is the file-dictionary directory *)
 Definition MkdirAllowed (c : mcfg) (p : bytes) : Prop :=
@@ -269,7 +274,7 @@ Definition ev_safe (c : mcfg) (e : sysev) : Prop :=
   | EvSocket f | EvSend f | EvBind f => f = AF_UNIX       (* in particular neither AF_INET nor AF_INET6 *)
   | EvConnect _ _ => False                                  (* the traced process connects nowhere *)
   | EvOpen w p => ~ In p resolver_files /\ (w = true -> PathAllowed c p)
-  | EvRename a b => PathAllowed c a /\ PathAllowed c b
+  | EvRename a b => RenameAllowed c a b
   | EvUnlink p => PathAllowed c p
   | EvMkdir p => MkdirAllowed c p
   end.
@@ -277,11 +282,49 @@ Definition ev_safe (c : mcfg) (e : sysev) : Prop :=
 Lemma path_allowed_spec : forall c p, path_allowed c p = true -> PathAllowed c p.
 Proof.
   intros c p H. unfold path_allowed in H. rewrite !orb_true_iff in H. unfold PathAllowed.
-  destruct H as [[[H | H] | H] | H].
+  destruct H as [[[[H | H] | H] | H] | H].
   - left. apply beqb_eq; assumption.
   - right; left. apply beqb_eq; assumption.
   - right; right; left. apply beqb_eq; assumption.
-  - right; right; right. apply bmem_In; assumption.
+  - right; right; right; left. apply beqb_eq; assumption.
+  - right; right; right; right. apply bmem_In; assumption.
+Qed.
+
+Lemma rename_allowed_spec : forall c a b, rename_allowed c a b = true -> RenameAllowed c a b.
+Proof.
+  intros c a b H. unfold rename_allowed, dict_file in H. apply andb_true_iff in H. destruct H as [Hd Ht].
+  apply orb_true_iff in Hd. split.
+  - destruct Hd as [Hd | Hd]; [left | right]; apply beqb_eq; assumption.
+  - apply beqb_eq in Ht. exact Ht.
+Qed.
+
+(* appending a slash-free suffix does not change the directory part *)
+Lemma dir_of_aux_app_noslash : forall t p acc cur,
+  forallb (fun x => negb (x =? slash)%N) t = true -> dir_of_aux (p ++ t) acc cur = dir_of_aux p acc cur.
+Proof.
+  intros t p. induction p as [| x p IH]; intros acc cur Ht.
+  - cbn [app]. revert cur. induction t as [| y t IHt]; intros cur; [reflexivity |].
+    cbn [forallb] in Ht. apply andb_true_iff in Ht. destruct Ht as [Hy Ht].
+    cbn [dir_of_aux]. destruct (y =? slash)%N; [discriminate Hy |]. rewrite (IHt Ht). reflexivity.
+  - cbn [app dir_of_aux]. destruct (x =? slash)%N; apply IH; assumption.
+Qed.
+
+Lemma dir_of_tmp : forall p, dir_of (tmp_of p) = dir_of p.
+Proof. intros p. unfold dir_of, tmp_of. apply dir_of_aux_app_noslash. vm_compute. reflexivity. Qed.
+
+(* an accepted rename stays inside the files that may be written: both ends are allowed paths *)
+Lemma rename_allowed_paths : forall c a b, rename_allowed c a b = true -> path_allowed c a = true /\ path_allowed c b = true.
+Proof.
+  intros c a b H. unfold rename_allowed, dict_file in H. apply andb_true_iff in H. destruct H as [Hd Ht].
+  apply beqb_eq in Ht. subst a. apply orb_true_iff in Hd. unfold path_allowed.
+  destruct Hd as [Hd | Hd].
+  - apply beqb_eq in Hd. subst b. split.
+    + assert (E : beqb (tmp_of (m_user c)) (tmp_of (m_user c)) = true) by (apply beqb_eq; reflexivity).
+      rewrite E. rewrite !orb_true_r. reflexivity.
+    + assert (E : beqb (m_user c) (m_user c) = true) by (apply beqb_eq; reflexivity). rewrite E. reflexivity.
+  - split.
+    + rewrite dir_of_tmp, Hd. rewrite !orb_true_r. reflexivity.
+    + rewrite Hd. rewrite !orb_true_r. reflexivity.
 Qed.
 
 Lemma mkdir_allowed_spec : forall c p, mkdir_allowed c p = true -> MkdirAllowed c p.
@@ -305,10 +348,16 @@ Proof.
     split.
     + intros Hin. apply bmem_In in Hin. rewrite Hin in Er. discriminate.
     + intros Hw. subst w. destruct (path_allowed c p) eqn:Ep; [apply path_allowed_spec; assumption | discriminate].
-  - destruct (path_allowed c a) eqn:Ea; destruct (path_allowed c b) eqn:Eb; cbn in H; try discriminate.
-    split; apply path_allowed_spec; assumption.
+  - destruct (rename_allowed c a b) eqn:Er; [apply rename_allowed_spec; assumption | discriminate].
   - destruct (path_allowed c p) eqn:Ep; [apply path_allowed_spec; assumption | discriminate].
   - destruct (mkdir_allowed c p) eqn:Ep; [apply mkdir_allowed_spec; assumption | discriminate].
+Qed.
+
+Lemma judge_rename_inside : forall c a b,
+  judge c (EvRename a b) = VOk -> path_allowed c a = true /\ path_allowed c b = true.
+Proof.
+  intros c a b H. cbn [judge] in H. destruct (rename_allowed c a b) eqn:Er; [| discriminate].
+  apply rename_allowed_paths; assumption.
 Qed.
 
 (* soundness of the monitor: a trace the oracle accepts contains no socket of an internet family, no connect,
